@@ -944,7 +944,7 @@ def main():
     ck.prove = prove
     ck.mode = "LOG (discrete laws, squashing identities), REAL modulo uninterpreted log/exp/logistic (continuous laws), XREAL (discrete samplers)"
     Ks = [2, 3] if not ck.thorough else [2, 3, 4, 5, 6]
-    ck.bound(categorical_K=Ks, bernoulli="scalar, logits and probs", multicategorical_dims=[[2, 3]], flat_vs_sequence_dims=[[2, 3], [2, 3, 2]] + ([[1, 4]] if ck.thorough else []), mvn_dims=[2] if not ck.thorough else [2, 3, 4], squashed_mvn_dims=[2] if not ck.thorough else [2, 3],
+    ck.bound(categorical_K=Ks, bernoulli="scalar, logits and probs", multicategorical_dims=[[2, 3]], flat_vs_sequence_dims=[[2, 3], [2, 3, 2], [2, 2]] + ([[1, 4], [3, 3], [2, 2, 2]] if ck.thorough else []), mvn_dims=[2] if not ck.thorough else [2, 3, 4], squashed_mvn_dims=[2] if not ck.thorough else [2, 3],
              pre_squash_range=f"|x| <= {XB} (below -9 distreqx's Sigmoid uses asymptotic approximations that are not identities over the reals)",
              sample_points="discrete sample points are case-split over the support plus out-of-support points (-1 and K); parameters, continuous sample points, bounds and keys are symbolic",
              note="logits are log P_i with P_i > 0 (every finite logit vector); probs parameters are non-negative with positive sum; scales > 0; low < high finite")
@@ -969,7 +969,8 @@ def main():
     for d3 in ([(2, 2, 2)] if not ck.thorough else [(2, 2, 2), (2, 3, 2), (2, 1, 2, 2)]):
         with ck.section("multicat@" + "x".join(map(str, d3))):
             sec_multicat(ck, d3)
-    for dims in [(2, 3), (2, 3, 2)] + ([(1, 4)] if ck.thorough else []):
+    # (equal component sizes included: a flat vector can then be split by a reshape, whose axis order matters)
+    for dims in [(2, 3), (2, 3, 2), (2, 2)] + ([(1, 4), (3, 3), (2, 2, 2)] if ck.thorough else []):
         with ck.section(f"flat_eq_sequence{dims}"):
             sec_flat_eq_sequence(ck, dims)
     with ck.section("discrete samplers"):
